@@ -162,6 +162,46 @@ pub fn run(thorough: bool) -> Vec<Part> {
         |bi| format!("block {}", bi),
     );
     t.record(&mut part, "one-shot-vs-connection");
+    // header blocks longer than the receive buffer: every head size in a window of 1100
+    // consecutive sizes, so that greedy reads end at every alignment relative to the head end
+    let t2 = par_enum(
+        1100,
+        workers(),
+        120,
+        |pad, t| {
+            for (method, body) in [("PUT", &b"0123456789012345678901234567890123456789"[..]), ("GET", &b""[..])] {
+                let mut s = format!("{} /big HTTP/1.1\r\n", method).into_bytes();
+                let mut left = 1000 + pad as usize;
+                let mut i = 0;
+                while left > 0 {
+                    let l = left.min(73 + (i % 5));
+                    let l = if left - l < 8 && left != l { left } else { l };
+                    if l < 8 {
+                        break;
+                    }
+                    let mut h = format!("X-{:03}: ", i).into_bytes();
+                    while h.len() < l - 2 {
+                        h.push(b'v');
+                    }
+                    h.extend_from_slice(b"\r\n");
+                    left -= h.len().min(left);
+                    s.extend_from_slice(&h);
+                    i += 1;
+                }
+                if !body.is_empty() {
+                    s.extend_from_slice(format!("Content-Length: {}\r\n", body.len()).as_bytes());
+                }
+                s.extend_from_slice(b"\r\n");
+                s.extend_from_slice(body);
+                judge(&s, t, &format!("big head, pad {}", pad));
+            }
+            if pad == 500 {
+                t.sample(json!({"big_head_pad": pad}));
+            }
+        },
+        |pad| format!("big head pad {}", pad),
+    );
+    t2.record(&mut part, "heads-larger-than-the-buffer");
     part.set("rule", json!("every (base, corruption, trailer) triple is a distinct slice; non-trivial = the connection turns the slice into exactly one request with nothing left over (the <= direction applies)"));
     part.set("exhaustive", json!(true));
     vec![part]
